@@ -780,14 +780,14 @@ theorem execPrim_G {s : State} {h : FId} {fh : Fiber} {rest : List FId} (b : BCt
     | (refine BCtx.bind (s := _) (fh := (ensureEnv s h fh).2.1) (rest := rest) ?_ _ _ _ (by rfl) (by rfl) (by rfl)
        exact b.ofTweak ((ensureEnv_tweak b.c.hfp).trans (Tweak.of_fibers_eq (ensureEnv_tweak b.c.hfp).cur rfl rfl)) (ensureEnv_child ..))
 
-theorem execNew_G {s : State} {h : FId} {fh : Fiber} {rest : List FId} (b : BCtx p f cont s h fh rest) (l : Nat) (body : Tm) (flags : List Nat) (k : Tm) :
-    G p f cont (execNew s h fh l body flags k) := by
+theorem execNew_G {s : State} {h : FId} {fh : Fiber} {rest : List FId} (b : BCtx p f cont s h fh rest) (l : Nat) (body : Tm) (flags : List Nat) (k : Tm) (sg : Sig) :
+    G p f cont (execNew s h fh l body flags k sg) := by
   unfold execNew
   simp only []
   have t := foldl_newEnvStep_tweak (p := h) flags (s, fh, none) b.c.hfp
   have t2 := t.trans (Tweak.append (s := (flags.foldl (newEnvStep h) (s, fh, none)).1)
     { status := stNew, mask := maskOfFlags flags, ctl := .run body, env := (flags.foldl (newEnvStep h) (s, fh, none)).2.1.env,
-      denv := (flags.foldl (newEnvStep h) (s, fh, none)).2.2 } t.cur rfl rfl)
+      denv := (flags.foldl (newEnvStep h) (s, fh, none)).2.2, sig := sg } t.cur rfl rfl)
   exact (b.ofTweak t2 (foldl_newEnvStep_child h flags (s, fh, none))).bind _ _ _ rfl rfl rfl
 
 theorem execLoopNext_G {s : State} {h : FId} {fh : Fiber} {rest : List FId} (b : BCtx p f cont s h fh rest) (l : Nat) (a : Atom) (body k : Tm)
@@ -856,7 +856,10 @@ theorem step_G (s : State) (hinv : Inv s) (hne : p ≠ f) (hb : Blk p f cont s s
             · exact (b.tweak _ (by rfl) (by rfl) (by rfl) (by rfl) (Or.inl (by rfl))).toG
           · exact (b.tweak _ (by rfl) (by rfl) (by rfl) (by rfl) (Or.inl (by rfl))).toG
           · exact execPrim_G b _ _ _ hT hC
-          · exact execNew_G b _ _ _ _
+          · exact execNew_G b _ _ _ _ _
+          · split
+            · exact b.panic _ _ rfl rfl rfl
+            · exact execNew_G b _ _ _ _ _
           · exact (b.tweak _ (by rfl) (by rfl) (by rfl) (by rfl) (Or.inl (by rfl))).toG
           · exact (b.tweak _ (by rfl) (by rfl) (by rfl) (by rfl) (Or.inl (by rfl))).toG
           · exact execLoopNext_G b _ _ _ _ (by simpa [instrTarget] using hT)
